@@ -99,6 +99,13 @@ def run_pc(case, drv):
             import pandas as pd
             est = PC(data=pd.DataFrame({names[i]: [0, 1] for i in order}))
             kw = dict(ci_test=oracle)
+        if (len(edges) + n) % 3 == 0:
+            # the estimator object has run another variant with a smaller conditioning-set limit before: no state may carry over
+            other = {"orig": "stable", "stable": "parallel", "parallel": "orig"}.get(case["variant"], "stable")
+            try:
+                est.estimate(variant=other, max_cond_vars=0, return_type="dag", show_progress=False, n_jobs=1, **kw)
+            except Exception:
+                pass
         skel, seps = est.estimate(variant=case["variant"], max_cond_vars=n, return_type="skeleton", show_progress=False, n_jobs=1, **kw)
         pdag = est.estimate(variant=case["variant"], max_cond_vars=n, return_type="pdag", show_progress=False, n_jobs=1, **kw)
         dag = est.estimate(variant=case["variant"], max_cond_vars=n, return_type="dag", show_progress=False, n_jobs=1, **kw)
